@@ -1,6 +1,7 @@
 package main
 
 import (
+	"unicode/utf8"
 	"reflect"
 	"encoding/hex"
 	"encoding/json"
@@ -199,6 +200,11 @@ func genHistOp(r *Rng, obj string) Op {
 		op.S = genCertRef(r)
 	case "vsi":
 		op.S = []string{"", "x", "https://veraison.example/v1/challenge-response", "é://v", "a b", "\x00", " ", "\t", " padded ", "trailing\n"}[r.Intn(10)]
+		if r.Chance(1, 8) {
+			// not well-formed UTF-8: carried as bytes, a trace is JSON
+			op.S = ""
+			op.X = [][]byte{[]byte("caf\xe9"), []byte("https://veraison.example/\xff\xfe/v1"), {0xc3, 0x28}}[r.Intn(3)]
+		}
 	case "sw":
 		return genSwListOp(r, "sw")
 	}
@@ -327,6 +333,14 @@ func histBase(prof string) *ClaimsDesc {
 	return nil
 }
 
+// opStr: the string argument of an operation (bytes in X when it is not valid UTF-8).
+func opStr(op Op) string {
+	if op.K == "vsi" && len(op.X) > 0 {
+		return string(op.X)
+	}
+	return op.S
+}
+
 func opBytes(op Op) []byte {
 	if op.D == 1 && len(op.X) == 0 {
 		return nil
@@ -370,7 +384,7 @@ func probeWith(base *ClaimsDesc, op Op) (*ClaimsDesc, bool) {
 	case "cert":
 		d.CertRef = sp(op.S)
 	case "vsi":
-		d.VSI = sp(op.S)
+		d.VSI = sp(opStr(op))
 	case "sw":
 		l, ok := opSwList(op)
 		if !ok {
@@ -616,7 +630,7 @@ func callSetter(c psatoken.IClaims, op Op) (err error, applicable bool) {
 	case "cert":
 		return c.SetCertificationReference(op.S), true
 	case "vsi":
-		return c.SetVSI(op.S), true
+		return c.SetVSI(opStr(op)), true
 	case "sw":
 		l, ok := opSwList(op)
 		if !ok {
@@ -655,7 +669,7 @@ func expectedGetter(op Op) string {
 	case "cert":
 		return fmt.Sprintf("cert=%q/ok", op.S)
 	case "vsi":
-		return fmt.Sprintf("vsi=%q/ok", op.S)
+		return fmt.Sprintf("vsi=%q/ok", opStr(op))
 	case "sw":
 		l, _ := opSwList(op)
 		if op.D == 1 {
@@ -959,7 +973,7 @@ func opValue(op Op) string {
 	case "cid", "lc":
 		return fmt.Sprint(op.A)
 	case "cert", "vsi", "mt", "ver", "md":
-		return fmt.Sprintf("%q", op.S)
+		return fmt.Sprintf("%q", opStr(op))
 	case "sw", "add", "replace":
 		if op.D == 1 {
 			return "nil list"
@@ -1221,6 +1235,13 @@ func applySwEdit(c psatoken.IClaims, op Op) {
 func checkEncodingReflectsGetters(res *Result, i int, c psatoken.IClaims, obj string) {
 	defer func() { _ = recover() }()
 	want := getterObs(c)
+	if v, err := c.GetVSI(); err == nil && !utf8.ValidString(v) {
+		// a text claim that is not well-formed UTF-8 cannot travel in either serialisation (JSON
+		// replaces the bytes, CBOR decoders refuse the text string); whether a setter should take
+		// such a value is a validity rule (C01), not this property
+		res.Probes["encoding_check_skipped_non_utf8_text"]++
+		return
+	}
 	if b, err := psatoken.EncodeClaimsToCBOR(c); err == nil {
 		if f, ferr := newHistClaims(obj, nil); ferr == nil {
 			if u, ok := f.(interface{ UnmarshalCBOR([]byte) error }); ok && u.UnmarshalCBOR(b) == nil {
